@@ -258,10 +258,21 @@ def minimize(case, fj):
     return cur, (f.to_json() if f is not None else fj)
 
 
+def _output_nodes(spec) -> set[str]:
+    """indices of the nodes that are outputs, including through operations
+    that return their operand as is (roll by 0, real of a real array)"""
+    with warnings.catch_warnings():
+        warnings.simplefilter("ignore")
+        prog = build_pt(spec, with_tags=True)
+    outs = list(prog.outputs.values())
+    return {str(i) for i, n in enumerate(prog.nodes)
+            if any(n is o for o in outs)}
+
+
 def _known_named_output_twin(case, failure) -> bool:
     """the failure disappears when the Named tags of nodes that are outputs
     are removed (only those)"""
-    out_idx = {str(i) for _, i in case["spec"]["outputs"]}
+    out_idx = _output_nodes(tagged(case["spec"], case["tags"]))
     c = copy.deepcopy(case)
     hit = False
     for i in list(c["tags"]):
